@@ -255,7 +255,7 @@ int main(int argc, char** argv)
 	Ctx c = parseArgs(argc, argv);
 	Rng rng(c.seed * 0x1000 + 0xA06 + VF_KINDS * 0x10000);
 	unsigned rounds = c.thorough ? 24 : 5;
-	hc().fam = (unsigned)rng.below(6);
+	hc().fam = (unsigned)rng.below(8);
 	// VF_KINDS: bit mask of the wrapper kinds this executable covers (split for compile time)
 #if VF_KINDS & 1
 	runVector(c, rng, c.thorough ? 60 : 12, c.thorough ? 700 : 400);
